@@ -9,7 +9,7 @@ import subprocess
 from . import common as c
 
 SUPPORT = ["Ast/Linked.v", "Ast/Tree.v", "Ast/Node.v", "Ast/Refute.v", "Ast/LinkedProofs.v", "Ast/IndexProofs.v",
-           "Ast/NodeRefine.v", "Ast/ArrayRefine.v", "Ast/SortProofs.v"]
+           "Ast/NodeRefine.v", "Ast/ArrayRefine.v", "Ast/RootRefine.v"]
 
 CLAIM = {
     "gens": [],
@@ -271,8 +271,8 @@ def run(ctx):
         "documents are valid JSON",
         "caching.StrHash is a parameter of the model; runs are collision-free, the theorems about the index assume the hash injective "
         "on the keys present",
-        "node_refines_tree is proved for the operations and representations listed in notes/C15.md under the stated guards "
-        "(no duplicate key in indexed objects, no empty key, Len on loaded nodes, in-range Move); the remaining cases are covered by "
+        "node_refines_tree is proved only for sequences of root-level Look/Load/LoadAll/Add (C15_node_refines_tree_partial) plus the layer "
+        "theorems (storage, index, representation changes, lazy array indexing); all other operations and deeper paths are covered by "
         "the three-way replay only",
         "V_ANY nodes, Cap(), IndexOrGet, the *UseNode / Map / Array converters and concurrent use are not modelled",
     ]
@@ -330,6 +330,7 @@ def run(ctx):
     flagsteps = collections.Counter()
     errs = collections.Counter()
     known_hit = collections.Counter()
+    known_example = {}
     viols = []
     distinct = set()
     steps = 0
@@ -363,6 +364,7 @@ def run(ctx):
             distinct.add(hashlib.sha1((f[1] + f[2] + f[4]).encode()).hexdigest())
         for k in r["known"]:
             known_hit[k] += 1
+            known_example.setdefault(k, {"case_line": line, "ops": ops[:80]})
         if cid in corpus_ids and cid in WITNESS:
             exp = WITNESS[cid]
             witness_ok[cid] = (r["viol"] is None) and ((exp is None and not r["known"]) or (exp in r["known"]))
@@ -390,7 +392,8 @@ def run(ctx):
         if k in known_listed:
             ctx.known(k, known_listed[k]["signature"])
         else:
-            ctx.violation("defect classified as %s but it is not listed in known_findings" % k, {"id": k}, True)
+            ctx.violation("defect %s reappeared: it is not (or no longer) listed in known_findings" % k,
+                          {"id": k, "example": known_example.get(k)}, True)
 
     # ---- violations: shrink, describe (those with a difference from the plain tree first)
     viols.sort(key=lambda fr: 0 if fr[1]["viol"][0] == "spec" else 1)
